@@ -7,16 +7,41 @@ TRUST = ("Trusted: z3 5.1; the pyvc encoding of the Python subset (ints mathemat
          "guarded by a native CPython differential on a model of every explored path; oracles in /verif/specs. ")
 
 CHECKS = {
+ 'C01': dict(
+  technique="composition of contracts: keep-or-revert gate contracts on the real drivers of gasol_asm.py (callee contracts as stubs, trace as ghost state; VCs from the real AST, z3), finite-domain opcode/operator and split-set tables, plus a bounded end-to-end run judged by a reference EVM executor; premises C02, C03, C05",
+  category='other', ref='DESIGN.md section 4 (C01)',
+  text="Proved for all verdicts/outcomes: a block is emitted in place of the input only if the built-in re-check answered equal, otherwise the very same input block is kept (optimize_asm_contract, optimize_isolated_asm_block), and a sub-block replacement is recorded only under the acceptance test; every opcode of the vocabulary is specified as itself with the operand order of the opcode table (finite, complete) and every externally visible opcode ends a segment. The semantic content (checker sound, specification faithful) is imported from C05/C02/C03. Additionally a bounded end-to-end comparison of emitted vs input block on sampled machine states.",
+  note=TRUST + "Explicitly partial: faithfulness of the string front end is covered only by the bounded tiers of C02/C03 and the end-to-end run; Max-SMT back end not exercised (no solver installed)."),
+ 'C02': dict(
+  technique="contract on the alias/overlap kernel are_dependent (may-overlap implies dependent, all kind pairs, all constant addresses symbolic; z3) plus a bounded stand-in: every linearization of the exported dependences of corpus blocks evaluated against a reference executor",
+  category='other', ref='DESIGN.md section 4 (C02)',
+  text="are_dependent answers True whenever the byte ranges / keys of a store and another access may intersect (proved for all constant offsets and lengths, and for symbolic addresses). For a corpus of memory/storage blocks and 4 option sets, every schedule of the specification's operations consistent with its dependences and data flow reproduces stack, memory and storage of the block on sampled states.",
+  note=TRUST + "Bounded stand-in for generate_dependences / simplify_memory family (corpus of ~70 blocks); precondition u_dict = {} in the kernel contract (sub-term heuristic for symbolic addresses not covered); term construction of the front end assumed."),
  'C03': dict(
   technique="contract-based deductive verification: per-opcode postconditions on evaluate_expression / evaluate_expression_ter / apply_transform / check_size against an independent EVM word-semantics oracle; VCs generated from the real AST, discharged by z3",
   category='proof', ref='DESIGN.md section 4 (C03)',
   text="For all 256-bit operand values: every constant folding and every local rewrite rule of the front end returns the EVM value of the opcode (wrap-around, division by zero, signed ops, shifts >= 256), never raises, never returns a non-word; size gates of check_size / NOT against an independent byte table. Proved per function and per opcode, unbounded in the operand values.",
   note=TRUST + "Bit-vector lemmas transferred to Int by definition of band/bor/bxor. Opcode->operator table obtained by running the real translation (finite domain). Context rules (apply_cond_transformation) and the fixpoint drivers are not under contract yet."),
+ 'C05': dict(
+  technique="recursion-on-contract proof of compare_variables (one frame with arbitrary symbolic arguments, recursive calls replaced by the function's own contract, uninterpreted denotation functions; z3), gate contract on compare_asm_block_asm_format, plus the whole checker run on semantic mutants judged by a reference executor (bounded)",
+  category='other', ref='DESIGN.md section 4 (C05)',
+  text="compare_variables returns True only for variables with equal denotation in both specifications, for every opcode arity and well-formed instruction pair (proved), is reflexive and never raises; the block comparison answers equal only if the specification checker does and the prefix/suffix items coincide, and never raises. Bounded: ~380 distinguishable mutants of 48 corpus blocks are all rejected; every block equals itself.",
+  note=TRUST + "compare_dependences and the injectivity of the store matching are covered by the bounded tier only; forves adapter not covered (external binary absent)."),
  'C08': dict(
   technique="contract-based deductive verification: postconditions on improves_criterion, block_has_been_optimized, compare_best_block, update_*_count and on the item/block cost functions against independent cost tables; VCs from the real AST, z3",
   category='proof', ref='DESIGN.md section 4 (C08)',
   text="For all cost figures: a replacement is accepted only if it is no costlier in the chosen criterion and (strictly cheaper, or tied and no worse in every other criterion with one strictly better); candidate selection never returns a beaten candidate; item byte/gas figures equal an independent table for every item name and every operand; totals add exactly the per-block figures.",
   note=TRUST + "List-level figures use AbstractSeq summaries (map/filter/sum homomorphisms); block-level gas additivity across sub-blocks (warm/cold bookkeeping) is not claimed."),
+ 'C10': dict(
+  technique="exceptional postconditions: safety/resource obligations of the folding and rule kernels (re-run from C03), containment contracts on greedy_from_json / greedy_standalone / search_optimal and on the drivers (stubs may raise), plus a bounded native run of the whole pipeline on corpus and edge blocks under a time budget",
+  category='other', ref='DESIGN.md section 4 (C10)',
+  text="Proved: the kernels never raise and never evaluate an unbounded power; any exception of the greedy search becomes an error flag; an exception while optimizing or re-verifying one block keeps that block and the run continues. Bounded: 100 blocks x 5 option sets terminate within 20 s, raise nothing and write an output.",
+  note=TRUST + "Termination of the rule fixpoints and time/memory proportionality are not decided (bounded runs only)."),
+ 'C11': dict(
+  technique="gate contract on optimize_asm_from_log (emit only after the re-check, otherwise ValueError and nothing written), contracts on optimize_asm_block_from_log / generate_sfs_dicts_from_log / optimize_block (logged ids are the chosen ones), plus bounded native round trips and tampered logs judged by a reference executor",
+  category='other', ref='DESIGN.md section 4 (C11)',
+  text="Proved for every log content: replay emits a block only if the checker accepted it against the original, else stops with an error before writing; the replay rebuilds with exactly asm_from_ids(sfs, log[k]); the optimizing run logs the ids of the chosen sequence and only for accepted sub-blocks. Bounded: log round trip is byte-identical and ~100 tampered logs give an error or an equivalent document.",
+  note=TRUST + "Byte-identity in general additionally needs determinism (C13) and history independence (C12); tamper detection relies on C05."),
  'C17': dict(
   technique="contract-based deductive verification with the PUSH0 flag as a ghost parameter of every contract (is_push0, build_asm_bytecode, generate_push_instruction, id_to_asm_bytecode, item printers/pricing), plus trace contracts on execute_gasol and the contract filter with callee contracts as stubs; z3",
   category='proof', ref='DESIGN.md section 4 (C17)',
